@@ -96,6 +96,9 @@ def cases(ctx):
         big = name.endswith("github.json") or name.endswith("vega.json")
         if big and ctx.tier != "thorough": continue
         out.append(("fixture:" + name, {"settings": dict(SETTINGS), "calls": [{"root": doc}]}))
+    import corpus
+    for cid, cdoc, _ in corpus.documents():
+        if cid.startswith(("hand:", "file:")): out.append(("corpus:" + cid, {"settings": dict(SETTINGS), "calls": [{"root": cdoc}]}))
     n = 400 if ctx.tier == "thorough" else 14
     for k in range(n):
         feats = (gen.FEATURE_SETS["defaults"] if k % 3 != 2 else gen.FEATURE_SETS["default"]) | ({"null_props"} if k % 2 else set()) | ({"map_keys", "any"} if k % 5 == 1 else set())
